@@ -15,6 +15,7 @@ Byte strings travel hex-encoded. Fields of a request are separated by TAB.
   parse <opts> <hex>                       → ok:<tree> | err:<kind>
   enc <tree>                               → <hex> | bad-tree
   ser <val>                                → some:<hex> | none
+      val: N T F I<int> S<hex> D<hex of the float text> A[v,…] K[<hex slot name>:v,…] O{<hex key>:v,…}
   unser <hex>   (input already TrimSpace'd) → value:<val> | false | legacy
   val: N T F I<int> S<hex> D A[<val>,…] O{<hexkey>:<val>,…}
   opts: msg=1,2;packed=3;et=3:0,4:5;max=64
@@ -148,6 +149,11 @@ def readTree (s : String) : Option FT :=
 
 /-! PHP values -/
 open Model.Ser in
+def plNamed : PL → Bool
+  | .nil => false
+  | .cons k _ rest => k != [] || plNamed rest
+
+open Model.Ser in
 mutual
 partial def pvS : PV → String
   | .null => "N"
@@ -155,8 +161,10 @@ partial def pvS : PV → String
   | .bool false => "F"
   | .int i => "I" ++ toString i
   | .str s => "S" ++ hexS s
-  | .float => "D"
-  | .arr items => "A[" ++ ",".intercalate (plS false items) ++ "]"
+  | .float r => "D" ++ hexS r
+  | .arr items =>
+      if plNamed items then "K[" ++ ",".intercalate (plS true items) ++ "]"
+      else "A[" ++ ",".intercalate (plS false items) ++ "]"
   | .obj props => "O{" ++ ",".intercalate (plS true props) ++ "}"
 partial def plS (keyed : Bool) : PL → List String
   | .nil => []
@@ -170,7 +178,9 @@ partial def readPV (cs : List Char) : Option (PV × List Char) :=
   | 'N' :: r => some (.null, r)
   | 'T' :: r => some (.bool true, r)
   | 'F' :: r => some (.bool false, r)
-  | 'D' :: r => some (.float, r)
+  | 'D' :: r =>
+      let body := r.takeWhile (fun c => (hexVal? c).isSome)
+      (unhexL body).map (fun b => (.float b, r.drop body.length))
   | 'I' :: r =>
       let body := r.takeWhile (fun c => c.isDigit || c == '-')
       (String.ofList body).toInt?.map (fun i => (.int i, r.drop body.length))
@@ -178,6 +188,7 @@ partial def readPV (cs : List Char) : Option (PV × List Char) :=
       let body := r.takeWhile (fun c => (hexVal? c).isSome)
       (unhexL body).map (fun b => (.str b, r.drop body.length))
   | 'A' :: '[' :: r => (readPL false r ']').map (fun (l, r') => (.arr l, r'))
+  | 'K' :: '[' :: r => (readPL true r ']').map (fun (l, r') => (.arr l, r'))
   | 'O' :: '{' :: r => (readPL true r '}').map (fun (l, r') => (.obj l, r'))
   | _ => none
 partial def readPL (keyed : Bool) (cs : List Char) (close : Char) : Option (PL × List Char) :=
